@@ -100,12 +100,13 @@ def selftest(ctx):
     def swap_setting(evs):
         # the recorded observations belong to another Felix setting
         for e in evs:
-            if e["ev"] == "reset" and _supported(e) and e["encap"] in ("ipip", "ipip-cross", "none"):
+            if e["ev"] == "reset" and _supported(e) and e["encap"] in ("ipip", "ipip-cross", "none") and \
+                    e["felix"] in _VALUES and e["bgp"] in _VALUES:
                 e["felix"], e["bgp"] = e["bgp"], e["felix"]
                 return evs
 
     return pipeline.corruption_selftest(ctx, P, [("flip_bird", flip_bird), ("drop_felix_route", drop_felix_route),
-                                                 ("both_program", both_program), ("swap_setting", swap_setting)], n_random=60)
+                                                 ("both_program", both_program), ("swap_setting", swap_setting)], n_random=120)
 
 
 MANIFEST = dict(
